@@ -152,6 +152,9 @@ func (g *Gen) buildGenesis() *GenesisDoc {
 	b.Singleton(&marketv1.FeeParams{BuyerPercentageFee: fp[0], SellerPercentageFee: fp[1]})
 	if r.Chance(0.8) {
 		b.Add(&basev1.AllowedBridgeChain{ChainName: "polygon"})
+		if g.R.Chance(0.4) {
+			b.Add(&basev1.AllowedBridgeChain{ChainName: "kava"})
+		}
 	}
 	if r.Chance(0.2) {
 		b.Add(&basev1.AllowedBridgeChain{ChainName: "ethereum"})
